@@ -1,7 +1,8 @@
 (* Props/C02.v -- property C02: compiling expressions and statements preserves what the script
    does.  Statements only; proofs are [exact lemma]. *)
 From TV Require Import Base.I32 Base.F32 Model.Ops Model.Expr Model.Lower Model.LowerSem
-  Gen.OpTable Proofs.LowerSound Proofs.LowerGenTable Proofs.F32Laws Proofs.LowerJumps Proofs.LowerJumpsGen.
+  Model.LowerProg Gen.OpTable Proofs.LowerSound Proofs.LowerGenTable Proofs.F32Laws Proofs.LowerJumps Proofs.LowerJumpsGen
+  Proofs.LowerProg Proofs.LowerProgGen.
 Open Scope Z_scope.
 
 (* Stage A (closed): an assignment statement `v aop= e` whose right-hand side is any well-typed
@@ -86,11 +87,49 @@ Theorem C02_lowered_instrs_carry_stmt_time :
   Forall (at_time time mask) code.
 Proof. exact lower_times. Qed.
 
+(* Stage C (closed): WHOLE BODIES.  [sprog]/[wprog] (Model/LowerProg.v) are AstVm on the flat source body and
+   on the lowered instruction stream: state = memory, script time, real time, instruction log; waits, difficulty
+   masks, jumps forwards and backwards (loops) to user labels, with or without a time argument.  Both are
+   validated against AstVm itself on every run (Corr.C02.model_run: source body, and raised compiled code).
+   For every body of statements covered by [wf_stmt] (assignments with any compound operator over jump-free
+   right-hand sides, ternary assignments, conditional / counting / unconditional jumps, labels, interrupts,
+   instruction calls whose arguments need no temporaries; every statement enabled on the VM's difficulty),
+   every table of intrinsics, every initial state and any number of loop iterations [fs]:
+   if the source run, in strict mode, ends in a state, the lowered stream ends in EXACTLY that state -- same
+   registers and locals, same time and real time, same instruction log with the same real times.
+   Strict mode makes two things errors of the source run instead of silent differences:
+   - a statement met while the script time is already past its own time (non-monotone time labels, or `goto L @ t`
+     with t after L's time): the jumps that the lowerer generates inside a statement reset the time to the
+     statement's time.  Without this guard the statement is FALSE of the code: recorded finding
+     c02-oracle:explicit-jump-time (corpus/C02/explicit_jump_time.txt);
+   - a NaN operand of a comparison inside a condition (the property quantifies over non-NaN floats). *)
+Theorem C02_body_correct :
+  forall libm avail auto_casts rty lty diff dsel n0 fuel body code s',
+  (forall op t, sigil_of_unop op <> None -> avail (KUnOp op t) = false) ->
+  lower_body avail auto_casts rty lty fuel body (mklst n0 []) = Ok (code, s') ->
+  wf_body auto_casts rty lty dsel n0 body ->
+  forall fs st st', fresh lty (p_mem st) n0 ->
+  sprog gen_optable libm rty lty diff dsel true fs body Exec st = Ok st' ->
+  wprog gen_optable libm lty dsel fs code Exec st None = Ok st'.
+Proof. exact body_correct_gen. Qed.
+
+(* non-vacuity of Stage C: a loop through a backward counting jump (3 iterations), a compound assignment
+   through a temporary, a ternary, `unless (a || b) goto L @ t`, calls: the premises hold, the strict source
+   run ends (time 40, real time 60, 5 logged calls) and so does the lowered stream, in the same state *)
+Example C02_body_example :
+  let rty := fun _ : Z => TInt in let lty := fun _ : nat => TInt in let libm := fun (_ : unop) (_ : Z) => 0 in
+  exists code s' st',
+    lower_body ex_avail true rty lty 20 ex_body (mklst 0 []) = Ok (code, s') /\ length code = 25%nat /\
+    wf_body true rty lty None 0 ex_body /\ fresh lty (p_mem ex_st0) 0 /\
+    sprog gen_optable libm rty lty 0 None true 10 ex_body Exec ex_st0 = Ok st' /\
+    p_time st' = 40 /\ p_real st' = 60 /\ length (p_log st') = 5%nat /\ regs (p_mem st') 1011 = VInt 27 /\
+    wprog gen_optable libm lty None 10 code Exec ex_st0 None = Ok st'.
+Proof. exact body_example. Qed.
+
 (* The full property, for reference.  Not yet a theorem: declarations, instruction
    calls with complex arguments, difficulty switches inside expressions, ternaries nested inside
-   arithmetic, the composition of the per-statement results over a whole body (jumps between statements,
-   waits, the instruction log) and the composition with register allocation (Proofs/RegAllocSem.v,
-   regalloc_simulates).  Those parts are covered by the structural correspondence (model lowering =
+   arithmetic, statements disabled on the VM's difficulty, and the composition with register allocation
+   (Proofs/RegAllocSem.v, regalloc_simulates).  Those parts are covered by the structural correspondence (model lowering =
    implementation lowering) and by the AstVm before/after oracle on every run. *)
 Definition C02_full_statement : Prop :=
   forall libm avail auto_casts rty lty time mask fuel (st : sstmt) s code s' m,
